@@ -97,6 +97,11 @@ class ContainerBase:
     def mk_copy(self, copy_node: bool = False) -> ContainerBase:
         """Make a copy of self."""
         copied = copy.copy(self)
+        # nested values (sub elements, lists) must not be shared with the original
+        for prop_name, prop in self.sorted_container_properties():
+            value = prop.get_actual_value(self)
+            if value is not None:
+                setattr(copied, prop_name, copy.deepcopy(value))
         if copy_node and self.node is not None:
             copied.node = xml_utils.copy_element(self.node)
         return copied
